@@ -4,6 +4,7 @@ from vlib.core import Case
 PROP = "C06"
 SPEC_MODE = "oracle"
 KEEP_PREFIX = 1
+EXTRA_MODULES = ("Sentinel.Lemmas.HotConc", "Sentinel.Lemmas.HotConcCap")
 SIZES = {"quick": 6000, "thorough": 120000}
 BATCH = 3000
 RULE = ("per case 1-4 hotspot rules (mostly MetricType=Concurrency; general threshold from {0,1,1,2,3}, 0-2 specific items with "
@@ -204,7 +205,9 @@ META = {
     "level_text": ("Theorems in lean/Sentinel/Props/C06.lean, kernel-checked for every rule set, every argument list and every history of entries "
                    "and exits in any order: while a rule's counter cache has not evicted, the cell of every value equals the number of live entries "
                    "admitted with it (cell_eq_live), admission is exactly live(v) < threshold(v) for every value that already has a cell "
-                   "(admit_iff_*), cells return to zero, entries for other values / blocked entries / entries blocked by another slot leave a "
+                   "(admit_iff_*, check_verdict_iff under any check/commit interleaving), the cap live(v) <= threshold(v) in sequential histories with "
+                   "positive thresholds (capped_sequential), no eviction while at most ParamsMaxCapacity distinct values were seen "
+                   "(no_evict_of_few_values), cells return to zero, entries for other values / blocked entries / entries blocked by another slot leave a "
                    "value's cell untouched.  The model (LRU cells, first-touch shortcut, re-extraction at exit) is tied to core/hotspot + api.Entry "
                    "by running the same op files through the real packages and the compiled Lean driver and comparing every answer; the property "
                    "itself (ledger recomputed from the trace) is judged on the implementation's own trace."),
